@@ -304,7 +304,22 @@ func runC17(c *fw.Ctx, idx int) fw.Result {
 				L := []int{8191, 8192, 8193, 29903, 65537, 100003, r.Range(1000, 120000), r.Range(1000, 120000)}[r.Intn(8)]
 				procs := []int{1, 2, 3, 7, 16}[r.Intn(5)]
 				runtime.GOMAXPROCS(procs)
-				s := gen.RandSeq(r, L, gen.SeqProfile{PAmbig: 0.2, PGap: 0.05, PQ: 0.02, PLower: 0.2})
+				sb := []byte(gen.RandSeq(r, L, gen.SeqProfile{PAmbig: 0.2, PGap: 0.05, PQ: 0.02, PLower: 0.2}))
+				// masked stretches: runs of 16-200 symbols drawn from N n - ? (dropouts next to
+				// deletions and trimmed ends), uniform or mixed
+				for m := 0; m < 6 && L > 400; m++ {
+					at := r.Intn(L - 250)
+					n := r.Range(16, 200)
+					pal := []string{"N", "Nn", "N-", "N-?n", "-?", "?"}[r.Intn(6)]
+					for k := 0; k < n; k++ {
+						if r.Chance(0.8) && k > 0 {
+							sb[at+k] = sb[at+k-1] // runs of one symbol inside the stretch
+						} else {
+							sb[at+k] = pal[r.Intn(len(pal))]
+						}
+					}
+				}
+				s := string(sb)
 				res.Evals += 4
 				res.Count("long_sequences", 1)
 				res.Sig(fmt.Sprintf("long|%d|p%d", L, procs))
@@ -323,6 +338,8 @@ func runC17(c *fw.Ctx, idx int) fw.Result {
 					b, ok1 := model.SetOf(comp[i], false)
 					d, ok2 := model.SetOf(rc[L-1-i], false)
 					switch {
+					case comp[i] != c17Comp(s[i]) || rc[L-1-i] != c17Comp(s[i]):
+						bad = fmt.Sprintf("Complement / ReverseComplement: position %d of %d: %q -> %q / %q, expected %q (the symbol itself matters: N, '-' and '?' are different symbols, case is kept)", i, L, s[i], comp[i], rc[L-1-i], c17Comp(s[i]))
 					case !ok1 || b != want:
 						bad = fmt.Sprintf("Complement: position %d of %d: %q -> %q", i, L, s[i], comp[i])
 					case !ok2 || d != want:
@@ -442,4 +459,25 @@ func upperStr(s string) string {
 		b[i] = model.Upper(b[i])
 	}
 	return string(b)
+}
+
+// c17Comp is the complement of one accepted character, written out independently of the code
+// under test: the IUPAC code of the complemented base set, same letter case; '-' and '?' stay.
+func c17Comp(ch byte) byte {
+	const from = "ACGTRYSWKMBDHVN-?"
+	const to = "TGCAYRSWMKVHDBN-?"
+	up := ch
+	lower := ch >= 'a' && ch <= 'z'
+	if lower {
+		up = ch - 32
+	}
+	for i := 0; i < len(from); i++ {
+		if from[i] == up {
+			if lower {
+				return to[i] + 32
+			}
+			return to[i]
+		}
+	}
+	return 0
 }
